@@ -43,9 +43,11 @@ func c25CheckStreams(rt *rapid.T, rec *ev.Rec, w *world, ka *c25KA, issued map[s
 		issued[tg] = is
 	}
 	ka.pending = map[string]*c25Issued{}
-	b := w.backends[1]
-	conns := append(ka.open, b.Conns()...)
-	b.Reset()
+	conns := append([]*sys.BackendConn(nil), ka.open...)
+	for _, b := range w.backends[1:] {
+		conns = append(conns, b.Conns()...)
+		b.Reset()
+	}
 	ka.open = nil
 	for ci, bc := range conns {
 		data := bc.Bytes()
@@ -249,6 +251,37 @@ func c25Sequence(rt *rapid.T, rec *ev.Rec, w *world, n int, mode string, ka *c25
 		if how == "rst" {
 			cl.Close()
 		}
+		time.Sleep(20 * time.Millisecond)
+	case "h2-upload-backend-fails":
+		// an HTTP/2 request with a body of unknown length is being uploaded when the first
+		// backend drops the connection; the cluster allows retrying GETs. A retry may only
+		// ever carry the complete body - the part already consumed cannot be replayed.
+		method := rapid.SampledFrom([]string{"GET", "GET", "POST"}).Draw(rt, "h2-method")
+		total := rapid.SampledFrom([]int{2000, 9009, 30000}).Draw(rt, "h2-total")
+		first := rapid.IntRange(1, total-1).Draw(rt, "h2-first-part")
+		rec.Case(fmt.Sprintf("h2retry|%s|%d|%d|%d", method, total, first, n), true, "mode:h2-upload-backend-fails", "h2-method:"+method)
+		rec.Sample(map[string]any{"mode": mode, "method": method, "body": total, "first_part": first})
+		wit["method"], wit["body"], wit["first_part"] = method, total, first
+		tg := fmt.Sprintf("/c25k/rt/%d/up", n)
+		body := bytes.Repeat([]byte("r"), total)
+		issued[tg] = &c25Issued{Method: method, Fields: map[string]string{"x-up": "1"}, Body: body, Sent: total, CL: false}
+		w.setScript(tg, &respScript{Seq: &faultSeq{faults: []string{"rst-on-header"}}})
+		cl, err := sys.NewH2Client(w.rig.HTTPSAddr)
+		if err != nil {
+			rt.Fatalf("rig: h2 dial: %v", err)
+		}
+		id, err := cl.StartRequest([]sys.H2Field{{":method", method}, {":scheme", "https"}, {":path", tg}, {":authority", "example.org"}, {"x-up", "1"}})
+		if err == nil {
+			cl.Fr.WriteData(id, false, body[:first])
+			for i := 0; i < 300 && len(w.seenFor(tg)) == 0; i++ {
+				time.Sleep(time.Millisecond)
+			}
+			time.Sleep(time.Duration(rapid.SampledFrom([]int{0, 5, 30}).Draw(rt, "h2-gap-ms")) * time.Millisecond)
+			cl.Fr.WriteData(id, true, body[first:])
+			cl.ReadResponse(id, 3*time.Second)
+		}
+		cl.Close()
+		w.forget(tg)
 		time.Sleep(20 * time.Millisecond)
 	case "concurrent":
 		k := rapid.IntRange(8, 24).Draw(rt, "clients")
